@@ -111,7 +111,7 @@ func c10Toks(l []string) string {
 func c10JSON(v string) string { return `{"k":"` + v + `"}` }
 
 // line renders the case for the driver; obs are the observed interval durations.
-func (tc *c10Case) line(mask string, obs []int64) string {
+func (tc *c10Case) line(lane, mask string, obs []int64) string {
 	files := "-"
 	if len(tc.files) > 0 {
 		fs := make([]string, len(tc.files))
@@ -141,7 +141,7 @@ func (tc *c10Case) line(mask string, obs []int64) string {
 		}
 		return "0"
 	}
-	return strings.Join([]string{"c10run", mask, c10Toks(tc.clientOps), c10Toks(tc.reqOps), c10Toks(tc.conds), c10Toks(tc.hooks),
+	return strings.Join([]string{lane, mask, c10Toks(tc.clientOps), c10Toks(tc.reqOps), c10Toks(tc.conds), c10Toks(tc.hooks),
 		c10Toks(tc.after), c10Toks(tc.script), ob,
 		c10Pairs(tc.cCookies), c10Multi(tc.cHeaders), c10Multi(tc.cForm), c10Multi(tc.cQuery), b2(tc.allowGet),
 		verifh.Hex(tc.method), verifh.Hex(tc.url), c10Pairs(tc.cookies), c10Multi(tc.headers), c10Multi(tc.form),
@@ -149,7 +149,11 @@ func (tc *c10Case) line(mask string, obs []int64) string {
 }
 
 // c10Wire decodes what the transport was handed into the canonical form the model prints.
-func c10Wire(r *http.Request, body []byte, hasBody bool) string {
+func c10Wire(r *http.Request, body []byte, hasBody bool, atOrigin bool) string {
+	target := r.URL.Scheme + "://" + r.URL.Host + r.URL.Path
+	if atOrigin { // the server side of a real round trip: drop what the transport itself adds
+		target = "http://" + r.Host + r.URL.Path
+	}
 	multi := func(m map[string][]string, skip string) string {
 		keys := make([]string, 0, len(m))
 		for k, vs := range m {
@@ -165,6 +169,11 @@ func c10Wire(r *http.Request, body []byte, hasBody bool) string {
 		return c10Multi(l)
 	}
 	hdr := r.Header.Clone()
+	if atOrigin {
+		for _, k := range []string{"User-Agent", "Accept-Encoding", "Content-Length", "Connection"} {
+			hdr.Del(k)
+		}
+	}
 	ct := hdr.Get("Content-Type")
 	mt, params, _ := mime.ParseMediaType(ct)
 	if mt == "multipart/form-data" {
@@ -217,7 +226,7 @@ func c10Wire(r *http.Request, body []byte, hasBody bool) string {
 	default:
 		b = "r" + verifh.Hex(string(body))
 	}
-	return strings.Join([]string{"m=" + verifh.Hex(r.Method), "u=" + verifh.Hex(r.URL.Scheme+"://"+r.URL.Host+r.URL.Path),
+	return strings.Join([]string{"m=" + verifh.Hex(r.Method), "u=" + verifh.Hex(target),
 		"q=" + multi(q, ""), "h=" + multi(hdr, "Cookie"), "c=" + c10Pairs(cks), "b=" + b}, "&")
 }
 
@@ -255,7 +264,7 @@ func (x *c10Run) RoundTrip(r *http.Request) (*http.Response, error) {
 		body, _ = io.ReadAll(r.Body)
 		r.Body.Close()
 	}
-	x.wires = append(x.wires, c10Wire(r, body, hasBody))
+	x.wires = append(x.wires, c10Wire(r, body, hasBody, false))
 	x.log = append(x.log, "W"+strconv.Itoa(x.req.RetryAttempt)+"["+x.wires[len(x.wires)-1]+"]")
 	if k >= len(x.tc.script)+3 || len(x.wires) > 40 {
 		x.runaway = true
@@ -813,7 +822,7 @@ func (tc *c10Case) relevantBits() []int {
 func c10Finish(s *verifh.Session, recs []c10Rec) {
 	lines := make([]string, len(recs))
 	for i, r := range recs {
-		lines[i] = r.tc.line("11111", r.obs)
+		lines[i] = r.tc.line("c10run", "11111", r.obs)
 	}
 	class := make([]string, len(recs))
 	var ans []string
@@ -842,7 +851,7 @@ func c10Finish(s *verifh.Session, recs []c10Rec) {
 						}
 					}
 					probes = append(probes, probe{i, string(m), off})
-					plines = append(plines, r.tc.line(string(m), r.obs))
+					plines = append(plines, r.tc.line("c10run", string(m), r.obs))
 				}
 			}
 			if len(plines) > 0 {
